@@ -138,7 +138,7 @@ func gen(r *verifsim.Rng, tier string) (any, hx.Sched) {
 	w := &W{}
 	nh := 1 + r.Intn(3)
 	kinds := []string{"read2", "read2", "read2", "loop", "arr", "obj", "depth", "closure", "helper",
-		"helperg", "objg", "closureg", "trycatch", "strbuild", "sortcb", "nested", "builtins"}
+		"helperg", "objg", "closureg", "trycatch", "strbuild", "sortcb", "nested", "builtins", "hot"}
 	if r.Intn(12) == 0 {
 		kinds = append(kinds, "bigbody", "bigbody", "bigbody")
 	}
@@ -175,6 +175,9 @@ func gen(r *verifsim.Rng, tier string) (any, hx.Sched) {
 				}
 			case "loop", "arr":
 				bl.N = 1 + r.Intn(6)
+			case "hot": // one source location executed hundreds of times within a request
+				bl.Acc = verifsim.Pick(r, accNames)
+				bl.N = verifsim.Pick(r, []int{40, 300, 300, 700})
 			}
 			hd.Blocks = append(hd.Blocks, bl)
 		}
@@ -342,6 +345,9 @@ $server = new Server('127.0.0.1', 0);
 			case "read2":
 				lab = fmt.Sprintf("b%d.%s", bi, strings.ReplaceAll(bl.Acc, "$", "")) // no "$": it would interpolate
 				fmt.Fprintf(b, "  $a1 = %s;%s $a2 = %s;\n  $out .= \"%s=\" . $a1 . \"|\" . $a2 . \";\";\n", accessors[bl.Acc], gate, accessors[bl.Acc], lab)
+			case "hot":
+				lab = fmt.Sprintf("b%d.%s", bi, strings.ReplaceAll(bl.Acc, "$", ""))
+				fmt.Fprintf(b, "  $hv = \"\"; $ho = new Acc(); for ($hi = 0; $hi < %d; $hi++) { $hv = %s; $ho->add(1); }%s\n  $out .= \"%s=\" . $hv . \"|\" . $hv . \";\";\n", bl.N, accessors[bl.Acc], gate, lab)
 			case "loop":
 				fmt.Fprintf(b, "  $s = 0; for ($i = 0; $i < %d; $i++) { $s += $i * $k;%s }\n  $out .= \"%s=\" . $s . \";\";\n", bl.N, gate, lab)
 			case "arr":
